@@ -4,6 +4,7 @@ use crate::diagnostic::{Diagnostic, Diagnostics};
 use crate::qmlast::{Node, UiObjectDefinition};
 use crate::qtname::{self, UniqueNameGenerator};
 use crate::typemap::{Class, NamedType, TypeSpace};
+use crate::uigen::xmlutil::is_xml_representable;
 use std::collections::HashMap;
 use std::mem;
 
@@ -50,6 +51,24 @@ impl<'a, 't> ObjectTree<'a, 't> {
     ) -> Option<usize> {
         let obj = diagnostics.consume_err(UiObjectDefinition::from_node(node, source))?;
         let type_name = obj.type_name().to_string(source);
+        // The object type name and the object id are written to the .ui file. JavaScript
+        // identifier may contain U+FFFE and U+FFFF, which XML 1.0 cannot carry.
+        if !is_xml_representable(&type_name) {
+            diagnostics.push(Diagnostic::error(
+                obj.type_name().node().byte_range(),
+                "object type name contains character which cannot be represented in XML",
+            ));
+            return None;
+        }
+        if let Some(id) = obj.object_id() {
+            if !is_xml_representable(id.to_str(source)) {
+                diagnostics.push(Diagnostic::error(
+                    id.node().byte_range(),
+                    "object id contains character which cannot be represented in XML",
+                ));
+                return None;
+            }
+        }
         // TODO: look up qualified name with '.' separator
         let ty = match type_space.get_type(&type_name) {
             Some(Ok(ty)) => ty,
